@@ -281,6 +281,13 @@ let plant (p : path) (content : n list) (mode : int) (mtime : z) (atime : z) =
   let f2 = set_names f1 ((p, i) :: List.filter (fun (q, _) -> q <> p) f1.names) in
   world := { !world with w_fs = f2 }
 
+(* somebody hard-links an existing file under a second name (the kernel's link, parents created first) *)
+let hardlink (src : path) (dst : path) =
+  let parent = List.rev (List.tl (List.rev dst)) in
+  mkdirs parent;
+  let (f', _) = sem !world.w_fs env0 (CLink (src, dst)) in
+  world := { !world with w_fs = f' }
+
 let snapshot () =
   let f = !world.w_fs in
   Buffer.add_string !obuf "SNAP begin\n";
@@ -386,6 +393,7 @@ let run () =
            (match !mismatch with Some m -> pf "SCHEDMISMATCH %s\n" m | None -> pf "SCHEDOK %d\n" !ntok)
          | "build" -> ()
          | "mkdir" -> mkdirs (path_of_string (unesc f.(1)))
+         | "ln" -> hardlink (path_of_string (unesc f.(1))) (path_of_string (unesc f.(2)))
          | "mkdirt" -> mkdirs (path_of_string (unesc f.(1))); set_dir_time (path_of_string (unesc f.(1))) (z_of_string f.(2))
          | "plant" -> plant (path_of_string (unesc f.(1))) (expand f.(2)) (int_of_string ("0o" ^ f.(3))) (z_of_string f.(4)) (z_of_string f.(5))
          | "trig" ->
